@@ -20,6 +20,12 @@ def specs(tier, seed):
                               ('schedule_b', (('run', 2), ('reset',), ('reinit',), ('newsolver',), ('run', 2))))))
     S.append(('twin', 'T3', (('control', ('arb', -1, 1)), ('schedule_a', R2),
                              ('schedule_b', (('run', 2), ('reset',), ('reinit',), ('run', 2))))))
+    # built-in timer rules (ConstantPWM) on a control object that is reused after the reset
+    cp = ('const', ((0.0, 0.125, 0.5), (0.3, 1.0, -0.75)))
+    for t in ('T3', 'T4'):
+        S.append(('twin', t, (('control', cp), ('schedule_a', (('run', 3),)),
+                              ('schedule_b', (('run', 3), ('reset',), ('reinit',), ('run', 3))))))
+        S.append(('twin', t, (('control', cp), ('schedule_a', (('run', 4),)), ('schedule_b', (('run', 2), ('run', 2))))))
     if tier == 'thorough':
         R5 = (('run', 5),)
         for t in ('T1', 'T2', 'T4', 'T5', 'T7'):
@@ -49,7 +55,8 @@ BOUNDS = {
     'quick': 'twin executions inside one exploration, configuration and dt concrete (dt = 1/8 s), initial state and one '
              'load value per instant symbolic: run(4) vs run(2)+run(2) on T1,T3(fixed duty),T4,T6; continuation '
              'expressed in ms / min / hour after a run in sec (T1); run(2) vs run(2)+reset+re-init+run(2) with the same '
-             'and with a new Solver on T1, T4, T7 (self-locking, may end held) and T3 with an arbitrary duty per instant',
+             'and with a new Solver on T1, T4, T7 (self-locking, may end held) and T3 with an arbitrary duty per instant; built-in '
+             'ConstantPWM timer rules on a control object reused across reset and continuation (T3, T4)',
     'thorough': 'quick + run(5) vs 2+3 and 3+2, all 4x3 ordered pairs of time units, T2/T5/T7, 8 seeded chains',
 }
 OUTSIDE = 'splits with more than 5 steps in total; more than one reset; symbolic dt (would enter the loop bound of arange)'
